@@ -260,15 +260,19 @@ def orderStakes (order : List Addr) (l : List (Addr × Nat)) : List (Addr × Nat
   if order.length == l.length && r.length == l.length && order.eraseDups.length == order.length && stakesAscending r
   then r else sortStakes l
 
+/-- the inner join of the two snapshot tables on the address (snapshot.go:51-156) -/
+def joinSnapshots (cur past : List AddrRow) : List (Addr × List Int × List Int) :=
+  cur.filterMap fun c =>
+    match findRow past c.addr with
+    | some p => some (c.addr, c.bals, p.bals)
+    | none => none
+
 def snapshotPayouts (P : Params) (h : Nat) (ts : Int) (rates : TMap) (order : List Addr := []) : LM Unit := do
   -- SnapshotCurrent
   M.guarded (fun _ => none) fun db => { db with snapPast := db.snapCur, snapCur := db.addrs }
   let db ← M.get
   -- inner join on address, MIN per asset
-  let joined := db.snapCur.filterMap fun c =>
-    match findRow db.snapPast c.addr with
-    | some p => some (c.addr, c.bals, p.bals)
-    | none => none
+  let joined := joinSnapshots db.snapCur db.snapPast
   let staked ← M.foldM (fun (l : List (Addr × Nat)) j =>
       match stakeOf P h rates j.2.1 j.2.2 with
       | none => M.throw (.uncaught "staking valuation: convert failed")
@@ -311,12 +315,14 @@ def recordHistory (P : Params) (h : Nat) (blockorder : Nat) (e : TxEntry) : LM U
     insertLookup { hash := e.hash, txIndex := idx, addr := t.inAddr }
     if t.isConversion P then
       insertHistTx { hash := e.hash, txIndex := idx, action := 2, fromAddr := t.inAddr, fromAsset := tickerName P t.inType,
-                     fromAmount := t.inAmount, toAsset := tickerName P t.conversion, toAmount := 0, outputs := "" }
+                     fromAmount := t.inAmount, toAsset := tickerName P t.conversion, toAmount := 0, outputs := "",
+                     fromT := t.inType, toT := t.conversion }
     else do
       M.forEach t.transfers fun tr => insertLookup { hash := e.hash, txIndex := idx, addr := tr.addr }
       insertHistTx { hash := e.hash, txIndex := idx, action := 1, fromAddr := t.inAddr, fromAsset := tickerName P t.inType,
                      fromAmount := t.inAmount, toAsset := "", toAmount := 0,
-                     outputs := renderOutputs (t.transfers.map fun tr => (tr.addr, (tr.amount : Int))) }
+                     outputs := renderOutputs (t.transfers.map fun tr => (tr.addr, (tr.amount : Int))),
+                     fromT := t.inType, outs := t.transfers.map fun tr => (tr.addr, tr.amount) }
 
 /-- one entry of `ApplyTransactionBlock` -/
 def applyTxEntry (P : Params) (h : Nat) (keymr : String) (blockorder : Nat) (e : TxEntry) : LM Unit := do
